@@ -24,6 +24,10 @@ func main() {
 	case "check":
 		os.Exit(govc.CmdCheck(os.Args[2:]))
 	default:
+		if h, ok := extra[os.Args[1]]; ok {
+			h(os.Args[2:])
+			return
+		}
 		fmt.Fprintln(os.Stderr, "unknown command", os.Args[1])
 		os.Exit(2)
 	}
@@ -114,5 +118,18 @@ func cmdFn(args []string) {
 	}
 	if bad > 0 {
 		os.Exit(1)
+	}
+}
+
+func init() { extra["ext"] = cmdExt }
+
+var extra = map[string]func([]string){}
+
+// cmdExt lists the dependency functions called (transitively through repository functions) from the
+// functions whose key contains one of the patterns, and whether a spec exists.
+func cmdExt(args []string) {
+	e := load("/repo", "/verif")
+	for _, l := range e.ExternalCallees(args) {
+		fmt.Println(l)
 	}
 }
